@@ -22,6 +22,8 @@ _STR_METHODS = (
     "startswith", "endswith", "lower", "upper", "strip", "rstrip", "lstrip", "split", "rsplit", "count", "replace",
     "join", "encode", "decode", "isdigit", "isalpha", "isalnum", "isspace", "find", "rfind", "index", "partition",
     "rpartition", "format", "title", "capitalize", "casefold", "splitlines", "zfill", "isupper", "islower",
+    "isascii", "isnumeric", "isdecimal", "isidentifier", "isprintable", "istitle", "removeprefix", "removesuffix", "swapcase",
+    "center", "ljust", "rjust", "expandtabs", "translate", "format_map",
 )
 _PURE_BUILTIN_NAMES = (
     "len", "str", "int", "float", "bool", "all", "any", "tuple", "list", "sorted", "min", "max", "callable", "dict", "set", "frozenset",
@@ -352,17 +354,19 @@ class _Interp(object):
                 except _Continue:
                     continue
         elif isinstance(st, ast.For):
-            it = self.expr(st.iter)
-            if isinstance(it, Obj):
-                it = self.dunder(it, "__iter__")
-            for x in list(it):
+            it = self.iterate(self.expr(st.iter))
+            broken = False
+            for x in it:
                 self.assign(st.target, x)
                 try:
                     self.block(st.body)
                 except _Break:
+                    broken = True
                     break
                 except _Continue:
                     continue
+            if not broken:
+                self.block(st.orelse)
         elif isinstance(st, ast.Try):
             try:
                 self.block(st.body)
@@ -395,12 +399,24 @@ class _Interp(object):
             self.env[t.id] = v
         elif isinstance(t, (ast.Tuple, ast.List)):
             if isinstance(v, Obj):
-                v = self.dunder(v, "__iter__")
+                v = self.iterate(v)
             if not isinstance(v, (list, tuple, str, bytes, dict, set, frozenset)):
                 raise Unknown("unpack of a non-sequence")
             vs = list(v)
-            if any(isinstance(e, ast.Starred) for e in t.elts):
-                raise Unknown("starred unpack")
+            stars = [i for i, e in enumerate(t.elts) if isinstance(e, ast.Starred)]
+            if len(stars) == 1:
+                i = stars[0]
+                after = len(t.elts) - i - 1
+                if len(vs) < len(t.elts) - 1:
+                    raise Raised("ValueError", "not enough values to unpack")
+                for a, b in zip(t.elts[:i], vs[:i]):
+                    self.assign(a, b)
+                self.assign(t.elts[i].value, list(vs[i:len(vs) - after]))
+                for a, b in zip(t.elts[i + 1:], vs[len(vs) - after:] if after else []):
+                    self.assign(a, b)
+                return
+            if stars:
+                raise Unknown("several starred targets")
             if len(vs) != len(t.elts):
                 raise Raised("ValueError", "unpack of %d values into %d names" % (len(vs), len(t.elts)))
             for a, b in zip(t.elts, vs):
@@ -417,11 +433,39 @@ class _Interp(object):
         else:
             raise Unknown("assign target")
 
+    def iterate(self, v):
+        """the values an iteration over v produces (an instance with __iter__ / __next__ is driven until StopIteration)"""
+        if isinstance(v, Obj):
+            r = self.dunder(v, "__iter__")
+            if isinstance(r, Obj):
+                out = []
+                for _ in range(20000):
+                    try:
+                        out.append(self.dunder(r, "__next__"))
+                    except Raised as e:
+                        if e.name == "StopIteration":
+                            return out
+                        raise
+                raise Unknown("iterator does not stop")
+            return list(r)
+        if isinstance(v, (list, tuple, str, bytes, bytearray, dict, set, frozenset)):
+            return list(v)
+        try:
+            return list(v)
+        except TypeError:
+            raise Raised("TypeError", "not iterable")
+
     def expr(self, n):
         if isinstance(n, ast.Call):
             return self.call(n)
         if isinstance(n, ast.Name) and n.id in self.env:
             return self.env[n.id]
+        if isinstance(n, ast.NamedExpr):
+            v = self.expr(n.value)
+            self.assign(n.target, v)
+            return v
+        if isinstance(n, ast.Starred):
+            raise Unknown("starred expression outside a call / display")
         if isinstance(n, ast.BoolOp):
             if isinstance(n.op, ast.And):
                 v = True
@@ -503,10 +547,14 @@ class _Interp(object):
                 return v[self.expr(n.slice)]
             except (IndexError, KeyError, TypeError) as e:
                 raise Unknown("subscript raised %s" % type(e).__name__)
-        if isinstance(n, ast.Tuple):
-            return tuple(self.expr(e) for e in n.elts)
-        if isinstance(n, ast.List):
-            return [self.expr(e) for e in n.elts]
+        if isinstance(n, (ast.Tuple, ast.List)):
+            out = []
+            for e in n.elts:
+                if isinstance(e, ast.Starred):
+                    out.extend(list(self.expr(e.value)))
+                else:
+                    out.append(self.expr(e))
+            return tuple(out) if isinstance(n, ast.Tuple) else out
         if isinstance(n, (ast.GeneratorExp, ast.ListComp)):
             out = []
             self._comp(n, 0, out)
@@ -612,7 +660,7 @@ class _Interp(object):
             out.append(self.expr(n.elt))
             return
         g = n.generators[i]
-        for x in self.expr(g.iter):
+        for x in self.iterate(self.expr(g.iter)):
             saved = dict(self.env)
             self.assign(g.target, x)
             if all(self.expr(c) for c in g.ifs):
@@ -646,6 +694,8 @@ class _Interp(object):
                     return self._decode_with_handler(base, args[0], args[1])
                 if isinstance(base, (str, bytes, bytearray, list, tuple, dict, set, frozenset)) and f.attr in _PURE_METHODS.get(type(base), ()):
                     # constant folding of a built-in method on a concrete built-in value
+                    if f.attr in ("join", "extend", "update") and args and isinstance(args[0], Obj):
+                        args = [self.iterate(args[0])] + list(args[1:])
                     try:
                         r = getattr(base, f.attr)(*args, **kwargs)
                     except Exception as e:
@@ -661,7 +711,7 @@ class _Interp(object):
                         raise Unknown("regex op raised %s" % e)
                 if isinstance(base, Regex) and f.attr == "finditer":
                     import re as _re
-                    return list(_re.compile(base.pattern, base.flags).finditer(*args))
+                    return iter(list(_re.compile(base.pattern, base.flags).finditer(*args)))
                 if isinstance(base, Regex) and f.attr in ("match", "search", "fullmatch", "sub"):
                     # constant folding of a regex constant applied to a constant string (stdlib re, no ural code)
                     import re as _re
@@ -714,7 +764,7 @@ class _Interp(object):
                     raise
                 except Exception as e:
                     raise Unknown("regex op raised %s" % e)
-                return list(r) if dn == "re.finditer" else r
+                return iter(list(r)) if dn == "re.finditer" else r
             # method of an imported module-level constant (e.g. PROTOCOL_RE.match)
             try:
                 base = self.repo.ceval(self.module, f.value)
@@ -728,10 +778,19 @@ class _Interp(object):
                 return self.call_value(self.env[f.id], args, kwargs)
             if f.id == "reversed":
                 return list(reversed(list(args[0])))
-            if f.id == "iter":
-                return list(args[0])
             if f.id == "range":
                 return list(range(*args))
+            if f.id == "iter" and len(args) == 1 and not isinstance(args[0], Obj) and f.id not in self.module.bindings:
+                # a real, consumable iterator (next() advances it)
+                if hasattr(args[0], "__next__"):
+                    return args[0]
+                return iter(self.iterate(args[0]))
+            if f.id == "next" and args and hasattr(args[0], "__next__") and not isinstance(args[0], Obj) and f.id not in self.module.bindings:
+                # a real (consumable) iterator: the result of finditer
+                try:
+                    return next(args[0]) if len(args) == 1 else next(args[0], args[1])
+                except StopIteration:
+                    raise Raised("StopIteration")
             if f.id == "next" and args and isinstance(args[0], list):
                 # generators are read as lists: next() is the first element (single use in ural)
                 if args[0]:
@@ -757,7 +816,7 @@ class _Interp(object):
                             return self.dunder(o, "__len__") != 0
                         except Unknown:
                             return True
-                seq = list(self.dunder(o, "__iter__"))
+                seq = self.iterate(o)
                 if f.id == "iter":
                     return seq
                 if f.id == "next":
@@ -869,7 +928,7 @@ def _regex_method(self, base, name, args, kwargs):
         raise
     except Exception as e:
         raise Unknown("regex op raised %s" % e)
-    return list(r) if name == "finditer" else r
+    return iter(list(r)) if name == "finditer" else r
 
 
 _Interp.regex_method = _regex_method
@@ -979,6 +1038,11 @@ def _call_value(self, v, args, kwargs):
 
 
 _Interp.call_value = _call_value
+
+
+def as_list(repo, value):
+    """the values an interpreter result yields when iterated (an iterator instance is driven to its end)"""
+    return _Interp(repo, repo.mod("utils"), {}, 0).iterate(value)
 
 
 def module_value(repo, modname, name):
